@@ -526,7 +526,7 @@ def wl_datafile(ctx, idx, rng):
 
 def workloads(ctx):
     q = ctx.tier == "quick"
-    return [("predict", 960 if q else 38400, wl_predict), ("time_at", 120 if q else 2400, wl_time_at), ("datafile", 8 if q else 40, wl_datafile)]
+    return [("predict", 2880 if q else 38400, wl_predict), ("time_at", 360 if q else 2400, wl_time_at), ("datafile", 8 if q else 40, wl_datafile)]
 
 
 def setup(ctx):
